@@ -465,6 +465,51 @@ impl Prop for C14 {
                     cx.violation(&format!("export|{}", class), json!({"at": at}));
                     return;
                 }
+                // one case in five: an import that must FAIL goes into the same (shared) layer set first - the message with one more cell whose
+                // layout places a cell nobody defined, after all the shapes. The layer set it was lent must be as useful afterwards as before.
+                if cx.n % 5 == 2 {
+                    let mut bad = p.clone();
+                    let mut pc = proto::Cell::default();
+                    pc.name = "refers_to_nothing".into();
+                    let mut pl = proto::Layout::default();
+                    pl.name = "refers_to_nothing".into();
+                    if let Some(src) = p.cells.iter().filter_map(|c| c.layout.as_ref()).find(|l| !l.shapes.is_empty()) {
+                        pl.shapes = src.shapes.clone();
+                    }
+                    pl.instances.push(proto::Instance {
+                        name: "dangling".into(),
+                        cell: Some(proto::Reference { to: Some(proto::reference::To::Local("no_such_cell_anywhere".into())) }),
+                        origin_location: Some(proto::Point::new(1, 2)),
+                        reflect_vert: false,
+                        rotation_clockwise_degrees: 0,
+                    });
+                    pc.layout = Some(pl);
+                    bad.cells.push(pc);
+                    match guard(|| Library::from_proto(bad, Some(g.lib.layers.clone())).map(|_| ())) {
+                        Ok(Err(_)) => cx.count("earlier_import_that_failed_into_the_same_layer_set"),
+                        Ok(Ok(())) => cx.count("message_with_undefined_reference_accepted"),
+                        Err(c) => {
+                            cx.violation(&format!("import-panic|undefined-reference|{}|{}", c.site(), c.norm_msg()), json!({"panic": c.msg}));
+                            return;
+                        }
+                    }
+                    // the untouched library still exports, to the same message
+                    match guard(|| g.lib.to_proto()) {
+                        Ok(Ok(p2)) if p2 == p => cx.count("export_unchanged_after_a_failed_import"),
+                        Ok(Ok(_)) => {
+                            cx.violation("export-differs-after-a-failed-import-into-the-library's-layer-set", json!({"library": g.lib.name}));
+                            return;
+                        }
+                        Ok(Err(e)) => {
+                            cx.violation("export-error-after-a-failed-import-into-the-library's-layer-set", json!({"error": format!("{:?}", e).chars().take(300).collect::<String>()}));
+                            return;
+                        }
+                        Err(c) => {
+                            cx.violation(&format!("export-panic|{}|{}", c.site(), c.norm_msg()), json!({"panic": c.msg}));
+                            return;
+                        }
+                    }
+                }
                 let back = match guard(|| Library::from_proto(p.clone(), Some(g.lib.layers.clone()))) {
                     Err(c) => {
                         cx.violation(&format!("import-panic|{}|{}", c.site(), c.norm_msg()), json!({"panic": c.msg}));
